@@ -257,18 +257,20 @@ theorem mem_allowedTexts (b : Bool) (l : List Str) (t : Str)
     subst hot; exact hs0
 
 theorem mirrorVar_ok (nonStrict : Bool) (v : VarSpec) (hvia : tb.defaultViaIn = true)
-    (hw : VarSpec.wf fo tb v = true) : ∃ m, mirrorVar fo tb nonStrict v = .ok m := by
+    (hw : VarSpec.wf fo tb v = true) (htyped : VarSpec.typed tb v = true) :
+    ∃ m, mirrorVar fo tb nonStrict v = .ok m := by
   unfold VarSpec.wf at hw
+  unfold VarSpec.typed at htyped
   simp only [Bool.and_eq_true] at hw
-  obtain ⟨⟨⟨⟨_, hty⟩, _⟩, _⟩, _⟩ := hw
+  obtain ⟨⟨⟨⟨⟨_, hty⟩, _⟩, _⟩, _⟩, _⟩ := hw
   unfold mirrorVar varOf
   cases hdt : v.dataType with
-  | none => rw [hdt] at hty; cases hty
+  | none => rw [hdt] at htyped; cases htyped
   | some dt =>
-    rw [hdt] at hty
-    simp only at hty ⊢
+    rw [hdt] at hty htyped
+    simp only at hty htyped ⊢
     cases hrow : tb.row? dt with
-    | none => rw [hrow] at hty; cases hty
+    | none => rw [hrow] at htyped; cases htyped
     | some row =>
       rw [hrow] at hty
       simp only [Bool.and_eq_true, List.all_eq_true] at hty ⊢
@@ -304,6 +306,23 @@ theorem mirrorVar_ok (nonStrict : Bool) (v : VarSpec) (hvia : tb.defaultViaIn = 
               · exact hrg.2)
       rw [hsc]
       exact ⟨_, rfl⟩
+
+/-- a well-formed variable can only fail for want of a supported data type -/
+theorem mirrorVar_err (nonStrict : Bool) (v : VarSpec) (hvia : tb.defaultViaIn = true)
+    (hw : VarSpec.wf fo tb v = true) (e : FErr) (h : mirrorVar fo tb nonStrict v = .error e) : e = .upnpError := by
+  by_cases ht : VarSpec.typed tb v = true
+  · obtain ⟨m, hm⟩ := mirrorVar_ok fo tb nonStrict v hvia hw ht
+    rw [hm] at h; cases h
+  · unfold VarSpec.typed at ht
+    unfold mirrorVar varOf at h
+    cases hdt : v.dataType with
+    | none => simp [hdt] at h; exact h.symm
+    | some dt =>
+      rw [hdt] at ht h
+      simp only at ht h
+      cases hrow : tb.row? dt with
+      | none => simp [hrow] at h; exact h.symm
+      | some row => simp [hrow] at ht
 
 theorem find_name_some (vars : List (VarM F)) (r : Str) (h : r ∈ vars.map (·.name)) :
     ∃ v, vars.find? (·.name == r) = some v := by
@@ -341,7 +360,8 @@ theorem actionOf_ok (lookup : Str → Option (VarM F)) (name : Option Str) (args
   exact ⟨_, rfl⟩
 
 theorem mirrorAction_ok (vars : List (VarM F)) (a : ActionSpec)
-    (h : ∀ g ∈ a.args, ∀ n d r, completeArg g.name g.direction g.related = some (n, d, r) → r ∈ vars.map (·.name)) :
+    (h : ∀ g ∈ a.args, ∀ n d r, completeArg g.name g.direction (g.related.map stripWs) = some (n, d, r) →
+      r ∈ vars.map (·.name)) :
     ∃ m, mirrorAction vars a = .ok m := by
   unfold mirrorAction
   apply actionOf_ok
@@ -350,6 +370,22 @@ theorem mirrorAction_ok (vars : List (VarM F)) (a : ActionSpec)
   obtain ⟨n, d, r⟩ := t
   exact find_name_some vars r (h g hg n d r hc)
 
+/-- an action can only fail for an argument whose related state variable is not declared -/
+theorem mirrorAction_err (vars : List (VarM F)) (a : ActionSpec) (e : FErr) (h : mirrorAction vars a = .error e) :
+    e = .keyError := by
+  unfold mirrorAction actionOf at h
+  cases hm : mapE (bindArg fun r => vars.find? (·.name == r))
+      (a.args.filterMap fun g => completeArg g.name g.direction (g.related.map stripWs)) with
+  | ok as => simp [hm] at h
+  | error e' =>
+    simp only [hm, Except.error.injEq] at h
+    subst h
+    obtain ⟨t, _, ht⟩ := mapE_err_mem _ _ e' hm
+    unfold bindArg at ht
+    split at ht
+    · cases ht
+    · simp only [Except.error.injEq] at ht; exact ht.symm
+
 /-- the library's XML errors -/
 def FErr.isXml : FErr → Prop
   | .xmlContent => True
@@ -357,9 +393,11 @@ def FErr.isXml : FErr → Prop
   | _ => False
 
 theorem mirrorBody_error (nonStrict : Bool) (s : ServiceSpec) (hvia : tb.defaultViaIn = true)
-    (hw : ServiceSpec.wf fo tb s = true) (e : FErr) (h : mirrorBody fo tb nonStrict s.doc = .error e) :
+    (hw : ServiceSpec.wf fo tb s = true) (hcomp : nonStrict = false → ServiceSpec.complete tb s = true)
+    (e : FErr) (h : mirrorBody fo tb nonStrict s.doc = .error e) :
     nonStrict = false ∧ e.isXml := by
   unfold ServiceSpec.wf at hw
+  unfold ServiceSpec.complete at hcomp
   simp only [Bool.and_eq_true] at hw
   obtain ⟨_, hdoc⟩ := hw
   unfold mirrorBody at h
@@ -374,8 +412,8 @@ theorem mirrorBody_error (nonStrict : Bool) (s : ServiceSpec) (hvia : tb.default
     cases nonStrict <;> simp at h
     subst h; exact ⟨rfl, trivial⟩
   | scpd sp =>
-    rw [hd] at h hdoc
-    simp only at h hdoc
+    rw [hd] at h hdoc hcomp
+    simp only at h hdoc hcomp
     obtain ⟨vs, as⟩ := sp
     cases vs with
     | none =>
@@ -386,26 +424,50 @@ theorem mirrorBody_error (nonStrict : Bool) (s : ServiceSpec) (hvia : tb.default
       exfalso
       simp only [ScpdSpec.wf, Bool.and_eq_true, List.all_eq_true] at hdoc
       obtain ⟨⟨hvars, _⟩, hacts⟩ := hdoc
-      obtain ⟨vars, hvm⟩ := mapE_ok (mirrorVar fo tb nonStrict) l
-        (fun v hv => mirrorVar_ok fo tb nonStrict v hvia (hvars v hv))
-      simp only [hvm] at h
-      cases as with
-      | none => simp at h
-      | some la =>
-        simp only [Bool.and_eq_true, List.all_eq_true] at hacts
-        obtain ⟨am, ham⟩ := mapE_ok (mirrorAction vars) la (fun a ha => by
-          apply mirrorAction_ok
-          intro g hg n d r hc
-          have hga := ((hacts.2 a ha).2 g hg).2
-          unfold completeArg at hc
-          cases hgn : g.name <;> cases hgd : g.direction <;> cases hgr : g.related <;> simp [hgn, hgd, hgr] at hc
-          obtain ⟨_, _, rfl⟩ := hc
-          rw [hgr] at hga
-          simp only [List.any_eq_true, beq_iff_eq] at hga
-          obtain ⟨v, hv, hvn⟩ := hga
-          rw [vars_names fo tb nonStrict l vars hvm]
-          exact List.mem_map.mpr ⟨v, hv, hvn⟩)
-        simp [ham] at h
+      simp only at h
+      cases nonStrict with
+      | true =>
+        -- whatever is incomplete degrades to an empty service
+        cases hvm : mapE (mirrorVar fo tb true) l with
+        | error e' =>
+          obtain ⟨v, hv, hve⟩ := mapE_err_mem _ l e' hvm
+          have := mirrorVar_err fo tb true v hvia (hvars v hv) e' hve
+          subst this
+          simp [hvm, degrade, FErr.incomplete] at h
+        | ok vars =>
+          cases as with
+          | none => simp [hvm, degrade] at h
+          | some la =>
+            cases ham : mapE (mirrorAction vars) la with
+            | error e' =>
+              obtain ⟨a, _, hae⟩ := mapE_err_mem _ la e' ham
+              have := mirrorAction_err vars a e' hae
+              subst this
+              simp [hvm, ham, degrade, FErr.incomplete] at h
+            | ok am => simp [hvm, ham, degrade] at h
+      | false =>
+        have hc := hcomp rfl
+        simp only [ScpdSpec.complete, Bool.and_eq_true, List.all_eq_true] at hc
+        obtain ⟨htyped, hrel⟩ := hc
+        obtain ⟨vars, hvm⟩ := mapE_ok (mirrorVar fo tb false) l
+          (fun v hv => mirrorVar_ok fo tb false v hvia (hvars v hv) (htyped v hv))
+        cases as with
+        | none => simp [hvm, degrade] at h
+        | some la =>
+          simp only [List.all_eq_true] at hrel
+          obtain ⟨am, ham⟩ := mapE_ok (mirrorAction vars) la (fun a ha => by
+            apply mirrorAction_ok
+            intro g hg n d r hc
+            have hga := hrel a ha g hg
+            unfold completeArg at hc
+            cases hgn : g.name <;> cases hgd : g.direction <;> cases hgr : g.related <;> simp [hgn, hgd, hgr] at hc
+            obtain ⟨_, _, rfl⟩ := hc
+            rw [hgr] at hga
+            simp only [List.any_eq_true, beq_iff_eq] at hga
+            obtain ⟨v, hv, hvn⟩ := hga
+            rw [vars_names fo tb false l vars hvm]
+            exact List.mem_map.mpr ⟨v, hv, hvn⟩)
+          simp [hvm, ham, degrade] at h
 
 theorem mirrorIcon_ok (base : Str) (i : IconSpec) (hw : IconSpec.wf i = true) : ∃ m, mirrorIcon base i = .ok m := by
   unfold IconSpec.wf at hw
@@ -427,10 +489,12 @@ theorem mirrorIcon_ok (base : Str) (i : IconSpec) (hw : IconSpec.wf i = true) : 
   simp only [mirrorIcon, iconOf, ha, hb, hc]
 
 mutual
-/-- on a well-formed description `mirror` refuses only in strict mode, and only with an XML error -/
+/-- on a well-formed description (in strict mode: with complete service descriptions) `mirror` refuses
+    only in strict mode, and only with an XML error -/
 theorem mirror_error : ∀ (d : DeviceSpec) (nonStrict : Bool) (base : Str) (e : FErr), tb.defaultViaIn = true →
-    d.wf fo tb base = true → mirror fo tb nonStrict base d = .error e → nonStrict = false ∧ e.isXml
-  | .mk info icons svcs emb, nonStrict, base, e, hvia, hw, h => by
+    d.wf fo tb base = true → (nonStrict = false → ∀ s ∈ d.allServices, ServiceSpec.complete tb s = true) →
+    mirror fo tb nonStrict base d = .error e → nonStrict = false ∧ e.isXml
+  | .mk info icons svcs emb, nonStrict, base, e, hvia, hw, hc, h => by
     simp only [DeviceSpec.wf, Bool.and_eq_true, List.all_eq_true] at hw
     obtain ⟨⟨⟨⟨⟨⟨⟨⟨_, _⟩, hic⟩, hsv⟩, _⟩, _⟩, hemb⟩, _⟩, _⟩ := hw
     rw [mirror] at h
@@ -447,33 +511,36 @@ theorem mirror_error : ∀ (d : DeviceSpec) (nonStrict : Bool) (base : Str) (e :
       | error e'' =>
         simp only [hb, Except.error.injEq] at hse
         subst hse
-        exact mirrorBody_error fo tb nonStrict s hvia (hsv s hs) e'' hb
+        exact mirrorBody_error fo tb nonStrict s hvia (hsv s hs)
+          (fun hn => hc hn s (by simp [DeviceSpec.allServices, hs])) e'' hb
     | ok sv =>
       simp only [hsm] at h
       cases hem : mirrors fo tb nonStrict base emb with
       | error e' =>
         simp only [hem, Except.error.injEq] at h
         subst h
-        exact mirrors_error emb nonStrict base e' hvia hemb hem
+        exact mirrors_error emb nonStrict base e' hvia hemb
+          (fun hn s hs => hc hn s (by simp [DeviceSpec.allServices, hs])) hem
       | ok em => simp [hem] at h
 theorem mirrors_error : ∀ (l : List DeviceSpec) (nonStrict : Bool) (base : Str) (e : FErr), tb.defaultViaIn = true →
-    wfs fo tb base l = true → mirrors fo tb nonStrict base l = .error e → nonStrict = false ∧ e.isXml
-  | [], _, _, _, _, _, h => by simp [mirrors] at h
-  | d :: r, nonStrict, base, e, hvia, hw, h => by
+    wfs fo tb base l = true → (nonStrict = false → ∀ s ∈ allServicesL l, ServiceSpec.complete tb s = true) →
+    mirrors fo tb nonStrict base l = .error e → nonStrict = false ∧ e.isXml
+  | [], _, _, _, _, _, _, h => by simp [mirrors] at h
+  | d :: r, nonStrict, base, e, hvia, hw, hc, h => by
     simp only [wfs, Bool.and_eq_true] at hw
     rw [mirrors] at h
     cases hd : mirror fo tb nonStrict base d with
     | error e' =>
       simp only [hd, Except.error.injEq] at h
       subst h
-      exact mirror_error d nonStrict base e' hvia hw.1 hd
+      exact mirror_error d nonStrict base e' hvia hw.1 (fun hn s hs => hc hn s (by simp [allServicesL, hs])) hd
     | ok m =>
       simp only [hd] at h
       cases hr : mirrors fo tb nonStrict base r with
       | error e' =>
         simp only [hr, Except.error.injEq] at h
         subst h
-        exact mirrors_error r nonStrict base e' hvia hw.2 hr
+        exact mirrors_error r nonStrict base e' hvia hw.2 (fun hn s hs => hc hn s (by simp [allServicesL, hs])) hr
       | ok ms => simp [hr] at h
 end
 
